@@ -584,7 +584,8 @@ def cases_flat(desc):
             continue
         for suffix in M.strings_of_length(L10, n - len(prefix)):
             s = prefix + suffix
-            yield {'op': 'rc', 'enc': 'ASCII', 'form': 'str', 'seq': s}
+            if n <= 5:          # a Python str becomes the ASCII array of the next case; not repeated at length 6
+                yield {'op': 'rc', 'enc': 'ASCII', 'form': 'str', 'seq': s}
             yield {'op': 'rc', 'enc': 'ASCII', 'form': 'flat', 'seq': s}
             yield {'op': 'rc', 'enc': 'ACGTN', 'form': 'flat', 'seq': s}
             if _no_n(s):
@@ -808,7 +809,7 @@ def bounds(tier, seed):
         }
     return {
         'flat': {'alphabet': L10, 'max_len': 6, 'strings': M.count_strings_up_to(10, 6),
-                 'forms': 'str, 1-D ASCII, 1-D ACGTN, 1-D ACGT (N-free strings)'},
+                 'forms': 'str (length <= 5), 1-D ASCII, 1-D ACGTN, 1-D ACGT (N-free strings)'},
         'ragged': {'rows': '1..3', 'max_total_letters': 4, 'lists': M.count_row_lists(10, 3, 4),
                    'forms': 'total letters <= 3: list, ragged, view-tail, view-rowrev, SequenceEntry (ASCII); ragged + 2 '
                             'views (ACGTN, ACGT); 2-D matrix when row lengths are equal.  total letters = 4: contiguous '
@@ -927,14 +928,14 @@ def unit_cost(d):
     sec = d['sec']
     if sec == 'flat':
         n = sum(10 ** (L - len(d['prefix'])) for L in d['lengths'] if L >= len(d['prefix']))
-        return n * 3.7 * 0.25
+        return n * (3.7 if max(d['lengths']) <= 5 else 2.7) * 0.3
     if sec == 'ragged':
         n = sum(10 ** (sum(p) - len(d['prefix'])) for p in d['profiles'] if sum(p) >= len(d['prefix']))
-        return n * (9.5 * 0.8 if d['forms'] == 'all' else 2.4 * 0.6)
+        return n * (9.5 * 1.4 if d['forms'] == 'all' else 2.4 * 1.0)
     if sec == 'profiles':
         k = len(PROFILE_LENGTHS[d['tier']])
         n = k ** d['n_rows'] if d['first'] is None else k ** (d['n_rows'] - 1)
-        return n * 3 * 11 * 0.9
+        return n * 3 * 11 * 1.45
     if sec == 'st_small':
         a = 10 if d['alphabet'] == 'full' else 5
         rest = d['ref_len'] - len(d['prefix'])
@@ -957,13 +958,13 @@ def unit_cost(d):
     if sec == 'tr_single':
         k = d['n_codons']
         if k == 1:
-            return 3600 * 0.35
+            return 3600 * 0.55
         if k == 2:
-            return len(d['firsts']) * 64 * 13 * 0.35
-        return len(d['firsts']) * 64 ** (k - 1) * 2 * 0.4
+            return len(d['firsts']) * 64 * 13 * 0.55
+        return len(d['firsts']) * 64 ** (k - 1) * 2 * 0.55
     if sec == 'tr_batch':
         per_first = sum(64 ** (sum(p) - 1) * (4 if sum(p) <= 2 else 1) for p in d['profiles'] if sum(p) >= 1)
-        return len(d['firsts']) * per_first * 0.43
+        return len(d['firsts']) * per_first * 0.64
     raise ValueError(sec)
 
 
